@@ -32,7 +32,9 @@ PARALLEL = 8
 SHARD = 20
 RUN_TIMEOUT = 90
 FINDING = "C21-orchestrator-start-foreign-thread"
-RULE = ("real thread-mode runs: 3-5 variables, algorithm dpop / mgm(stop_cycle 3-8) / dsa(stop_cycle), "
+RULE = ("real thread-mode runs (modes: plain; poke = a foreign thread calls end_metrics / current_solution / "
+        "current_global_cost / replication_metrics / stop_agents(grace 0..0.2 s) / wait_ready during the run; "
+        "timeout = run(timeout=0.6) ended by the library's Timer thread): 3-5 variables, algorithm dpop / mgm(stop_cycle 3-8) / dsa(stop_cycle), "
         "distribution oneagent/adhoc/random, collect mode value_change/cycle_change/period(0.01-0.05s), "
         "switch interval 1e-6..5e-3 s, random sleeps <= 0.5 ms in 5% of the callbacks; "
         "non-trivial = at least 20 recorded callbacks on at least 3 threads; distinct = distinct case JSON")
@@ -69,7 +71,15 @@ def gen(rng, n, tier):
         if algo in ("mgm", "dsa"):
             params = {"stop_cycle": rng.randint(3, 8)}
         collect = rng.choice(["value_change", "cycle_change", "period", "period"])
-        cases.append(dict(kind="real", spec=spec, algo=algo, params=params, dist=dist,
+        # poke: a foreign ("user") thread calls the orchestrator's public entry points while the
+        # run is going on: the read accessors, wait_ready and stop_agents with a grace period too
+        # short for the agents to stop (mgm / dsa then run without stop condition so that
+        # computations are still running).  timeout: the run is ended by the library's own Timer.
+        mode = rng.choice(["plain", "poke", "poke", "timeout"])
+        if algo in ("mgm", "dsa") and mode != "plain":
+            params = {}
+        cases.append(dict(kind="real", mode=mode, grace=rng.choice([0.0, 0.05, 0.2]),
+                          spec=spec, algo=algo, params=params, dist=dist,
                           n_agents=nv + rng.randint(0, 1) if dist == "oneagent" else rng.randint(2, nv),
                           collect=collect, period=rng.choice([0.01, 0.02, 0.05]),
                           seed=rng.randrange(1 << 30),
@@ -122,9 +132,26 @@ def _real(case):
     orch = run_local_thread_dcop(algo, cg, dist, dcop, rt.INFINITY, collect_moment=case["collect"],
                                  period=case["period"] if case["collect"] == "period" else None)
     res = {}
+    mode = case.get("mode", "plain")
+    import threading
+
+    def poker():
+        limit = time.time() + 30
+        while time.time() < limit and orch.mgt.start_time is None:
+            time.sleep(0.01)
+        time.sleep(0.15)
+        orch.end_metrics()
+        orch.current_global_cost()
+        orch.current_solution()
+        orch.replication_metrics()
+        orch.stop_agents(case.get("grace", 0.05))
+        orch.wait_ready()
+        orch.end_metrics()
     try:
         orch.deploy_computations()
-        orch.run(timeout=RUN_TIMEOUT)
+        if mode == "poke":
+            threading.Thread(target=poker, name="c21-user", daemon=True).start()
+        orch.run(timeout=0.6 if mode == "timeout" else RUN_TIMEOUT)
         res["status"] = orch.status
         res["elapsed"] = time.time() - t0
     finally:
@@ -175,7 +202,7 @@ def _main_only_in_orch_start(o):
 def oracle(case, o):
     if "error" in o:
         return "run failed: %s %s" % (o["error"], o.get("detail", ""))
-    if o["status"] != "OK" and case["algo"] == "dpop":
+    if o["status"] != "OK" and case["algo"] == "dpop" and case.get("mode", "plain") != "timeout":
         return "run ended with status %s" % o["status"]
     v = _violations(o)
     if v:
@@ -201,12 +228,13 @@ API = {"agent_start": "ApiAgentStart", "stop": "ApiStop", "clean_shutdown": "Api
        "orch_start_replication": "ApiOrchStartReplication", "orch_run": "ApiOrchRun",
        "orch_stop_agents": "ApiOrchStopAgents", "orch_stop": "ApiOrchStop",
        "orch_mgt_method": "ApiOrchMgtMethod", "orch_on_timeout": "ApiOrchOnTimeout",
-       "orch_process_event": "ApiOrchProcessEvent"}
+       "orch_process_event": "ApiOrchProcessEvent", "orch_read": "ApiOrchRead",
+       "orch_wait_ready": "ApiOrchWaitReady"}
 MGT = {"metrics_mode": "MgMetricsMode", "deploy": "MgDeploy", "replication": "MgReplication",
        "run_computations": "MgRun", "pause_computations": "MgPause", "resume_computations": "MgResume",
        "setup_repair": "MgSetupRepair", "repair_run": "MgRepairRun", "stop": "MgStop",
        "agent_removed": "MgAgentRemoved"}
-KIND = {"start": "KStart", "on_message": "KOnMessage", "pause": "KPause", "periodic": "KPeriodic",
+KIND = {"handler": "KHandler", "start": "KStart", "on_message": "KOnMessage", "pause": "KPause", "periodic": "KPeriodic",
         "disc_cb": "KDiscCb"}
 
 
@@ -256,7 +284,7 @@ def nontrivial(case, o):
 def histogram(cases, obs):
     h = {}
     for c, o in zip(cases, obs):
-        k = "%s/%s/%s" % (c["algo"], c["dist"], c["collect"])
+        k = "%s/%s/%s/%s" % (c["algo"], c["dist"], c["collect"], c.get("mode", "plain"))
         h[k] = h.get(k, 0) + 1
         if "error" in o:
             h["error/" + o["error"]] = h.get("error/" + o["error"], 0) + 1
